@@ -141,6 +141,52 @@ impl<KT: DbMapKeyType> FileDbXxxInner<KT> {
 // delete: NEW
 impl<KT: DbMapKeyType> FileDbXxxInner<KT> {}
 
+// relink: a key piece was moved from `old_offset` to `new_offset`.
+impl<KT: DbMapKeyType> FileDbXxxInner<KT> {
+    fn relink_moved_key(
+        &mut self,
+        hash: HashValue,
+        old_offset: KeyPieceOffset,
+        new_offset: KeyPieceOffset,
+    ) -> Result<()> {
+        let mut old_offset = old_offset;
+        let mut new_offset = new_offset;
+        loop {
+            let head = self.htx_file.read_key_piece_offset(hash)?;
+            if head == old_offset {
+                return self.htx_file.write_key_piece_offset(hash, new_offset);
+            }
+            // find the predecessor of the moved piece in the bucket chain.
+            let mut prev_offset = head;
+            loop {
+                if prev_offset.is_zero() {
+                    return Err(std::io::Error::new(
+                        std::io::ErrorKind::Other,
+                        "broken bucket chain: moved key piece is not linked",
+                    ));
+                }
+                let next_offset = {
+                    let mut locked_key = self.key_file.0.borrow_mut();
+                    locked_key.read_piece_only_bucket_next_offset(prev_offset)?
+                };
+                if next_offset == old_offset {
+                    break;
+                }
+                prev_offset = next_offset;
+            }
+            let mut prev_piece = self.key_file.read_piece(prev_offset)?;
+            prev_piece.bucket_next_offset = new_offset;
+            let new_prev_piece = self.key_file.write_piece(prev_piece)?;
+            if new_prev_piece.offset == prev_offset {
+                return Ok(());
+            }
+            // the predecessor was also moved, go on.
+            old_offset = prev_offset;
+            new_offset = new_prev_piece.offset;
+        }
+    }
+}
+
 // find: NEW
 impl<KT: DbMapKeyType> FileDbXxxInner<KT> {
     fn find_in_hash_buckets_kt(
@@ -248,7 +294,8 @@ impl<KT: DbMapKeyType> DbXxxObjectSafe<KT> for FileDbXxxInner<KT> {
         if let Some((key_offset, _prev_key_offset)) = opt {
             let new_key_offset = self.store_value_on_insert(key_offset, value)?;
             if key_offset != new_key_offset {
-                unimplemented!("key_offset != new_key_offset : in put_kt");
+                _cold();
+                self.relink_moved_key(hash, key_offset, new_key_offset)?;
             }
         } else {
             _cold();
@@ -285,7 +332,7 @@ impl<KT: DbMapKeyType> DbXxxObjectSafe<KT> for FileDbXxxInner<KT> {
                 let new_prev_key = self.key_file.write_piece(prev_key_piece)?;
                 if _prev_key_offset != new_prev_key.offset {
                     _cold();
-                    panic!("_prev_key_offset != new_prev_key_offset : in del_kt");
+                    self.relink_moved_key(hash, _prev_key_offset, new_prev_key.offset)?;
                 }
             }
             //
